@@ -27,6 +27,7 @@ func main() {
 	tier := fs.String("tier", "quick", "quick|thorough")
 	keep := fs.Bool("keep", false, "keep SMT files")
 	verbose := fs.Bool("v", false, "verbose")
+	witness := fs.Bool("witness", false, "verify: search and replay a counterexample for every open obligation (written under replays/_verify)")
 	timeout := fs.Int("timeout", 0, "per-query timeout seconds")
 	schema := fs.String("schema", "", "use the schema contract of this property")
 	fs.Parse(os.Args[2:])
@@ -86,6 +87,15 @@ func main() {
 		}
 		res := e.verifyOne(*fn, con, o)
 		printResult(res, *verbose)
+		if *witness && res.Err == "" {
+			for _, g := range res.Goals {
+				if g.Status == "proved" || g.ExpectSat {
+					continue
+				}
+				rp := e.writeReplay("_verify", res, g, o)
+				fmt.Printf("  witness %s: confirmed=%v %s\n", g.Name, rp.Confirmed, rp.Path)
+			}
+		}
 		if *keep {
 			fmt.Println("workdir:", work)
 		}
